@@ -216,10 +216,36 @@ def run_property(pid, tier, seed):
     # ---------------- ground (finite, complete) and bounded floor
     ground_res = []
     floor_res = None
-    if hasattr(prop, 'ground'):
-        ground_res = prop.ground(ctx)
-    if hasattr(prop, 'floor'):
-        floor_res = prop.floor(ctx)
+    for stage in ('ground', 'floor'):
+        if not hasattr(prop, stage):
+            continue
+        try:
+            if stage == 'ground':
+                ground_res = prop.ground(ctx)
+            else:
+                floor_res = prop.floor(ctx)
+        except Exception as e:
+            # An exception that escapes from library code while the bounded stand-in drives it with inputs of the
+            # property's domain is a behaviour the unchanged tree does not have: reported as a violation (with the
+            # traceback as its replay).  An exception raised in the harness itself stays a checker error.
+            tb = traceback.extract_tb(e.__traceback__)
+            root = os.path.realpath(ctx.ld.repo.root)
+            last = tb[-1].filename if tb else ''
+            remote = getattr(getattr(e, '__cause__', None), 'tb', None)     # raised in a pool worker
+            if isinstance(remote, str):
+                files = re.findall(r'File "([^"]+)"', remote)
+                last = files[-1] if files else last
+            if last and os.path.realpath(last).startswith(root + os.sep):
+                payload = {'property': pid, 'clause': '%s:library-raised-in-%s' % (pid, stage), 'kind': 'harness-exception',
+                           'detail': 'library code raised %r while the %s stage was driving it' % (e, stage),
+                           'traceback': (remote.splitlines()[-14:] if isinstance(remote, str) else
+                                         traceback.format_exception(type(e), e, e.__traceback__)[-12:]),
+                           'kind_of_replay': 'none: see traceback (the innermost frames name the library function and '
+                                             'the call that failed)'}
+                p = core.write_replay(pid, payload['clause'], payload)
+                violations.append({'clause': payload['clause'], 'replay': p, 'found': False})
+            else:
+                raise
     for g in ground_res:
         if not g['ok']:
             payload = {'property': pid, 'clause': g['name'], 'kind': 'ground', 'detail': g.get('detail'),
